@@ -339,7 +339,7 @@ def decompress(kind, raw, size, codec):
         raise Invalid(f"unknown compression {kind}")
     if not codec:
         raise Invalid(f"{name} needs the codec binary")
-    with tempfile.TemporaryDirectory(dir="/dev/shm" if os.path.isdir("/dev/shm") else None) as d:
+    with tempfile.TemporaryDirectory(dir=os.environ.get("JBKMC_SCRATCH_ROOT") or ("/dev/shm" if os.path.isdir("/dev/shm") else None)) as d:
         i, o = os.path.join(d, "i"), os.path.join(d, "o")
         open(i, "wb").write(raw)
         r = subprocess.run([codec, name, i, o], capture_output=True)
